@@ -191,9 +191,11 @@ namespace xsimd
                 //
                 // https://docs.kernel.org/admin-guide/hw-vuln/gather_data_sampling.html
 
+                // Without OSXSAVE, XCR0 cannot be read and the OS does not manage
+                // the YMM/ZMM state: only the (FXSAVE-managed) SSE state can be assumed.
                 unsigned sse_state_os_enabled = 1;
-                unsigned avx_state_os_enabled = 1;
-                unsigned avx512_state_os_enabled = 1;
+                unsigned avx_state_os_enabled = 0;
+                unsigned avx512_state_os_enabled = 0;
 
                 // OSXSAVE: A value of 1 indicates that the OS has set CR4.OSXSAVE[bit
                 // 18] to enable XSETBV/XGETBV instructions to access XCR0 and
